@@ -85,6 +85,7 @@ pub struct Custom {
 pub fn registry(prop: &str) -> Option<Custom> {
     match prop {
         "C06" => Some(crate::props::c06::check()),
+        "C09" => Some(crate::props::c09::check()),
         "C14" => Some(crate::props::c14::check()),
         "C16" => Some(crate::props::c16::check()),
         "C15" => Some(crate::props::c15::check_entry()),
